@@ -245,6 +245,15 @@ def tidOf (c : Cfg) : Label → Option Nat
   | .hSpurious h | .hPollW h | .hDec h | .hPollN h | .hExitSt h | .hExitOr h => some (c.n + h)
   | .envPause _ _ => none
 
+/-- frame: steps of other threads (incl. the helpers' threads) and of the environment leave the projection of `t`
+unchanged -/
+theorem frame (c : Cfg) (s s' : State) (t : Nat) (L : Label)
+    (ht : tidOf c L ≠ some t) (h : step c s L = some s') : proj s' t = proj s t := by
+  cases L <;> simp only [tidOf, ne_eq, Option.some.injEq, reduceCtorEq, not_false_eq_true] at ht <;>
+    simp only [step] at h <;> (repeat' split at h) <;>
+    simp only [Option.some.injEq, reduceCtorEq] at h <;> subst h <;>
+    first | rfl | (have ht' := Ne.symm ht; simp [proj, upd, ht', lockS, unlockS, newHelper, nestOn, nestOff])
+
 end U
 
 end UrcuVerif.Src.CallRcuL
